@@ -175,6 +175,8 @@ PROPS = {
                 "re-listed and hashed, the changed paths and the loaded sentinel are compared with the model's prediction, and the tree is put back. "
                 "Unrestricted: a fixed list of 15 relative names (shows the sentinels are reachable without the sanitiser). "
                 "image.new(name,2,2); image.save(name) for the 31 aimed names x 4 configurations (touches ./grol.png only). "
+                "PROCESS EXECUTION, dynamically: exec(\"touch\", name) and run(\"touch\", name) for 3 names x 4 configurations: an error and an untouched tree unless IO is "
+                "unrestricted (there the file appears: the functions exist and work); save() and load() WITHOUT argument x 4 configurations (./.gr, or an error when load/save are disabled). "
                 "non-trivial = a call with an argument; distinct = distinct case line.",
         "trusted_base": COMMON_TB + [
             "modelled: extensions.sanitizeFileName, lexer.IsAlphaNum; from the source text (regenerated Grol/Generated/IOFacts.lean): the list of "
